@@ -306,7 +306,7 @@ pub fn judge(c: &Case, o: &Result<Obs, String>) -> Option<(String, serde_json::V
 }
 
 pub fn run(cfg: &Cfg, rep: &mut Report) {
-  let total = cfg.n(100_000, 25_000_000);
+  let total = cfg.n(400_000, 25_000_000);
   let max_ops = cfg.n(3, 5);
   let mut rng = Rng::new(cfg.seed ^ 0xC13);
   for i in 0..total {
